@@ -129,8 +129,27 @@ func (m *Machine) binop(op token.Token, t types.Type, x, y Value) Value {
 	return nil
 }
 
+// concretizeSign replaces a symbolic finite real by a representative with the same sign when
+// it is combined with an infinity (only the sign matters there).
+func (m *Machine) signRep(t *Term) *Term {
+	if t.IsConst() || t.IsSpecialFloat() {
+		return t
+	}
+	zero := mkReal(new(big.Rat))
+	if m.branch(tCmp(">", t, zero)) {
+		return mkReal(big.NewRat(1, 1))
+	}
+	if m.branch(tCmp("<", t, zero)) {
+		return mkReal(big.NewRat(-1, 1))
+	}
+	return zero
+}
+
 func (m *Machine) floatBinop(op token.Token, x, y *Term) Value {
 	x, y = toReal(x), toReal(y)
+	if (x.op == "inf" || y.op == "inf") && (op == token.ADD || op == token.SUB || op == token.MUL || op == token.QUO) {
+		x, y = m.signRep(x), m.signRep(y)
+	}
 	switch op {
 	case token.ADD:
 		return rArith("+", x, y)
@@ -167,6 +186,30 @@ func (m *Machine) floatBinop(op token.Token, x, y *Term) Value {
 	return nil
 }
 
+// wrapInt is tWrap for machine integers; for relaxed (real-sorted) integers whose range is
+// not known it decides on the path whether an overflow is feasible at all.
+func (m *Machine) wrapInt(t *Term, bits uint, signed bool) *Term {
+	if t.sort == SInt {
+		return tWrap(t, bits, signed)
+	}
+	var lo, hi *big.Int
+	if signed {
+		lo, hi = new(big.Int).Neg(pow2(bits-1)), new(big.Int).Sub(pow2(bits-1), big.NewInt(1))
+	} else {
+		lo, hi = big.NewInt(0), new(big.Int).Sub(pow2(bits), big.NewInt(1))
+	}
+	if t.within(lo, hi) {
+		return t
+	}
+	oor := tOr(tCmp("<", t, mkReal(new(big.Rat).SetInt(lo))), tCmp(">", t, mkReal(new(big.Rat).SetInt(hi))))
+	if m.branch(oor) {
+		m.unsupported("overflow of a relaxed (real-sorted) integer")
+	}
+	c := *t
+	c.lo, c.hi = lo, hi
+	return &c
+}
+
 func (m *Machine) intBinop(op token.Token, t types.Type, x, y *Term) Value {
 	bits, signed, ok := intInfo(t)
 	if !ok {
@@ -174,11 +217,11 @@ func (m *Machine) intBinop(op token.Token, t types.Type, x, y *Term) Value {
 	}
 	switch op {
 	case token.ADD:
-		return tWrap(tAdd(x, y), bits, signed)
+		return m.wrapInt(tAdd(x, y), bits, signed)
 	case token.SUB:
-		return tWrap(tSub(x, y), bits, signed)
+		return m.wrapInt(tSub(x, y), bits, signed)
 	case token.MUL:
-		return tWrap(tMul(x, y), bits, signed)
+		return m.wrapInt(tMul(x, y), bits, signed)
 	case token.QUO:
 		m.fault(tEq(y, mkInt64(0)), "integer divide by zero")
 		return tWrap(tQuoGo(x, y), bits, signed)
@@ -593,22 +636,25 @@ func (m *Machine) conv(tdst, tsrc types.Type, x Value) Value {
 				}
 				return mkInt(pow2(bits - 1))
 			}
-			tr := tTruncReal(t)
-			// out-of-range float->int is implementation-defined: flag and use amd64 behaviour
+			// out-of-range float->int is implementation-defined: flag and use amd64 behaviour.
+			// The range test is made on the real value itself (no to_int in the query).
 			var lo, hi *big.Int
 			if signed {
 				lo, hi = new(big.Int).Neg(pow2(bits-1)), new(big.Int).Sub(pow2(bits-1), big.NewInt(1))
 			} else {
 				lo, hi = big.NewInt(0), new(big.Int).Sub(pow2(bits), big.NewInt(1))
 			}
-			if tr.IsConst() {
+			if t.IsConst() {
+				tr := tTruncReal(t)
 				if tr.iv.Cmp(lo) < 0 || tr.iv.Cmp(hi) > 0 {
 					m.notePoison("float->int conversion out of range")
 					return mkInt(lo)
 				}
 				return tr
 			}
-			oor := tOr(tCmp("<", tr, mkInt(lo)), tCmp(">", tr, mkInt(hi)))
+			loR := mkReal(new(big.Rat).SetInt(new(big.Int).Sub(lo, big.NewInt(1))))
+			hiR := mkReal(new(big.Rat).SetInt(new(big.Int).Add(hi, big.NewInt(1))))
+			oor := tOr(tCmp("<=", t, loR), tCmp(">=", t, hiR))
 			if m.branch(oor) {
 				m.notePoison("float->int conversion out of range")
 				if signed {
@@ -616,6 +662,18 @@ func (m *Machine) conv(tdst, tsrc types.Type, x Value) Value {
 				}
 				return mkInt(pow2(bits - 1))
 			}
+			if m.eng.cfg.RelaxTrunc {
+				// over-approximation: the truncated value is any real r with |t-r| < 1 on the
+				// zero side of t (integrality dropped); a proof under it covers the real truncation
+				r := m.freshVar("trunc", SReal, lo, hi)
+				zero := mkReal(new(big.Rat))
+				one := mkReal(big.NewRat(1, 1))
+				m.assertPC(tIte(tCmp(">=", t, zero),
+					tAnd(tCmp(">=", r, zero), tCmp("<=", r, t), tCmp("<", t, rArith("+", r, one))),
+					tAnd(tCmp("<=", r, zero), tCmp(">=", r, t), tCmp(">", t, rArith("-", r, one)))))
+				return r
+			}
+			tr := tTruncReal(t)
 			tr2 := *tr
 			tr2.lo, tr2.hi = lo, hi
 			return &tr2
